@@ -356,8 +356,10 @@ def finish(mod, res: Result, kf):
                'at call sites the region is excluded by this assumption']
     ev = dict(property_id=prop_id, tier=res.tier, seed=res.seed, level=level, coverage=coverage,
               assumptions=list(getattr(mod, 'ASSUMPTIONS', [])) + kf_note, wall_s=wall, violations=len(res.violations))
-    os.makedirs(os.path.join(HERE, 'evidence'), exist_ok=True)
-    with open(os.path.join(HERE, 'evidence', f'{prop_id}.json'), 'w') as f:
+    # runs on deliberately changed trees (tools/run_seeded.sh) keep their evidence out of the committed directory
+    edir = os.environ.get('VERIF_EVIDENCE_DIR') or os.path.join(HERE, 'evidence')
+    os.makedirs(edir, exist_ok=True)
+    with open(os.path.join(edir, f'{prop_id}.json'), 'w') as f:
         json.dump(ev, f, indent=1, default=str)
     for ln in lines:
         print(ln)
